@@ -31,6 +31,9 @@ type Spec struct {
 	CancelAt int     `json:"cancel_at"`           // -1 never, 0 before start, n>0 inside the n-th consumer callback
 	CancelUs int     `json:"cancel_us,omitempty"` // >0: cancel after this many microseconds instead
 	Procs    int     `json:"procs"`
+	// DropHashes > 0: the signature handed to Validate lacks its last DropHashes block hashes (a signature file
+	// cut at a message boundary reads back without error): the file worker fails; that must never look like "valid"
+	DropHashes int `json:"drop_hashes,omitempty"`
 }
 
 func manyTree(n int) h.Tree {
@@ -92,6 +95,14 @@ func check(s Spec) h.Result {
 		return h.Result{Skip: "cannot write work copy"}
 	}
 	cl := []string{"consumer:" + s.Consumer}
+	if s.DropHashes > 0 && len(hs) > 0 {
+		k := s.DropHashes
+		if k > len(hs) {
+			k = len(hs)
+		}
+		si = &pwr.SignatureInfo{Container: c, Hashes: hs[:len(hs)-k]}
+		cl = append(cl, "signature:last-hashes-missing")
+	}
 	if s.BigMiB > 0 {
 		cl = append(cl, "tree:file->1024-blocks", "many-damage:"+s.ManyDmg)
 		if s.ManyDmg == "big-first-block" {
@@ -220,7 +231,7 @@ func check(s Spec) h.Result {
 		return h.Result{Fail: fmt.Sprintf("fail-fast validation returned nil for a directory that deviates from the signed build (%s); cancelled=%v cancel_at=%d cancel_us=%d",
 			describe(devs, lerr), cancelled, s.CancelAt, s.CancelUs), Classes: cl}
 	}
-	if s.Consumer == "failfast" && verr != nil && !deviates && !cancelled {
+	if s.Consumer == "failfast" && verr != nil && !deviates && !cancelled && s.DropHashes == 0 {
 		return h.Result{Fail: fmt.Sprintf("fail-fast validation of an identical directory, never cancelled, returned an error: %v", verr), Classes: cl}
 	}
 	if verr != nil {
@@ -279,6 +290,9 @@ var prop = h.Prop[Spec]{
 		s.Damages = h.GenDamages(t, s.Tree, 3, true, true)
 		genCancel(t, &s)
 		s.Procs = rapid.SampledFrom([]int{1, 2, 4, 16}).Draw(t, "gomaxprocs")
+		if rapid.IntRange(0, 7).Draw(t, "short-signature") == 0 {
+			s.DropHashes = rapid.IntRange(1, 3).Draw(t, "drop-hashes")
+		}
 		return s
 	},
 	Check:    check,
